@@ -69,6 +69,31 @@ namespace {
       return a;
    }
 
+   // accept() entered again from inside the hook it called, on the same node, Limit levels deep (a recursive visitor over a deeply
+   // nested program does this for every class on its path): every level must reach the node's own hook, and view<K> asked from the
+   // innermost hook must still yield the node for its own category only.
+   struct Nested : ipr::Visitor {
+      static constexpr int Limit = 300;
+      int level = 0, own = 0, other = 0;
+      Value inner = Value::array();
+      void visit(const ipr::Node&) override { ++other; }
+      void visit(const ipr::Expr&) override { ++other; }
+      void visit(const ipr::Name&) override { ++other; }
+      void visit(const ipr::Type&) override { ++other; }
+      void visit(const ipr::Directive&) override { ++other; }
+      void visit(const ipr::Stmt&) override { ++other; }
+      void visit(const ipr::Decl&) override { ++other; }
+      template<class K> void again(const K& n)
+      {
+         ++own;
+         if (level < Limit) { ++level; n.accept(*this); --level; }
+         else inner = views_of(n);
+      }
+#define LEAF(K) void visit(const ipr::K& n) override { again(n); }
+#include "leaf_categories.inc"
+#undef LEAF
+   };
+
    int do_zoo()
    {
       Zoo z;
@@ -79,7 +104,10 @@ namespace {
          n.accept(rec);
          SinksOnly so;
          n.accept(so);
+         Nested ne;
+         n.accept(ne);
          auto ev = Value::object();
+         ev.set("nestdepth", Nested::Limit + 1).set("nested", ne.own).set("strays", ne.other).set("innerviews", ne.inner);
          auto hooks = Value::array();
          for (auto& hk : rec.hooks) hooks.push(hk);
          ev.set("e", "visit").set("impl", demangle(typeid(n).name())).set("how", p.second)
